@@ -248,7 +248,10 @@ structure PState where
 def parseIptLine (st : PState) (line : Str) : Except Str PState :=
   match line with
   | [] => .ok st
-  | '*' :: name => .ok { tb := setA name [] st.tb, cur := some name, app := false }
+  | '#' :: _ => .ok st      -- comment line of iptables-save
+  | '*' :: name =>
+    if hasA name st.tb then .error (s "Duplicate definition of table " ++ goQuote name)
+    else .ok { tb := setA name [] st.tb, cur := some name, app := false }
   | ':' :: rest =>
     match st.cur with
     | none => .error (s "Found chain policy outside of table: " ++ goQuote line)
@@ -256,7 +259,8 @@ def parseIptLine (st : PState) (line : Str) : Except Str PState :=
       match fields rest with
       | name :: policy :: _ =>
         let cm := (getA t st.tb).getD []
-        .ok { st with tb := setA t (setA name { policy := policy } cm) st.tb }
+        if hasA name cm then .error (s "Duplicate definition of chain " ++ goQuote name)
+        else .ok { st with tb := setA t (setA name { policy := policy } cm) st.tb }
       | _ => .ok st
   | '-' :: _ =>
     match st.cur with
@@ -435,6 +439,28 @@ def Change.show (ch : Change) : List Str × List Str × List Str :=
    ch.ipt.show,
    if ch.ipt = .same then [] else
      [s "#!/sbin/iptables-restore", s "# Generated by NetSPoC"] ++ (getIPTablesConfig ch.newTables).map FLine.show)
+
+/-- `getDeviceRoutes`: the output of `ip route show`, split into lines, a trailing empty line dropped,
+`ip route add ` put in front of every line. -/
+def deviceRoutes (out : Str) : Except Str (List Route) :=
+  let lines := splitChar out '\n'
+  let lines := if lines.getLast? = some [] then lines.dropLast else lines
+  parseRoutes (lines.map (s "ip route add " ++ ·))
+
+/-- `getDeviceIPTables`: the output of `iptables-save`, line by line (comment lines and all). -/
+def deviceIPTables (out : Str) : Except Str Tables := parseIPTables (splitChar out '\n')
+
+/-- `LoadDevice` (the part after the login): iptables first, then routes. -/
+def loadDevice (iptOut routeOut : Str) : Except Str Config := do
+  let tb ← deviceIPTables iptOut
+  let routes ← deviceRoutes routeOut
+  pure { routes := routes, iptables := tb }
+
+/-- `drc -C FILE` / `drc FILE` against a device: what `GetChanges` computes. -/
+def compareDevice (iptOut routeOut spoc : Str) : Except Str Change := do
+  let a ← loadDevice iptOut routeOut
+  let b ← parseConfig spoc
+  pure (diffConfig a b)
 
 /-- `drc FILE_DEVICE FILE_NETSPOC` without raw and ipv6 files (`MergeSpoc` with an empty
 configuration is the identity). -/
